@@ -21,6 +21,7 @@ import (
 	commonv2 "metacontroller/pkg/controller/common/api/v2"
 	v1 "metacontroller/pkg/controller/common/customize/api/v1"
 	"metacontroller/pkg/hooks"
+	"sync"
 	"time"
 
 	"k8s.io/apimachinery/pkg/types"
@@ -59,8 +60,11 @@ type Manager struct {
 	dynInformers    *dynamicinformer.SharedInformerFactory
 	parentInformers common.InformerMap
 
-	relatedInformers common.InformerMap
-	customizeCache   *cache.Cache[customizeKey, *v1.CustomizeHookResponse]
+	// relatedInformersLock guards relatedInformers, which is filled lazily by
+	// whichever worker (or parallel per-revision hook call) needs a resource first.
+	relatedInformersLock sync.Mutex
+	relatedInformers     common.InformerMap
+	customizeCache       *cache.Cache[customizeKey, *v1.CustomizeHookResponse]
 
 	stopCh chan struct{}
 
@@ -125,6 +129,8 @@ func (rm *Manager) Start(stopCh chan struct{}) {
 }
 
 func (rm *Manager) Stop() {
+	rm.relatedInformersLock.Lock()
+	defer rm.relatedInformersLock.Unlock()
 	for _, informer := range rm.relatedInformers {
 		informer.Informer().RemoveEventHandlers()
 		informer.Close()
@@ -161,33 +167,48 @@ func (rm *Manager) getRelatedClient(apiVersion, resource string) (*dynamicclient
 		return nil, nil, err
 	}
 	groupVersion, _ := schema.ParseGroupVersion(apiVersion)
-	informer := rm.relatedInformers.Get(groupVersion.WithResource(resource))
-	if informer == nil {
-		informer, err = rm.dynInformers.Resource(apiVersion, resource)
+	informer, err := rm.getOrCreateRelatedInformer(apiVersion, resource, groupVersion.WithResource(resource))
+	if err != nil {
+		return nil, nil, err
+	}
 
-		if err != nil {
-			return nil, nil, fmt.Errorf("can't create informer for related resource: %w", err)
-		}
-
-		_, err := informer.Informer().AddEventHandler(clientgo_cache.ResourceEventHandlerFuncs{
-			AddFunc:    rm.onRelatedAdd,
-			UpdateFunc: rm.onRelatedUpdate,
-			DeleteFunc: rm.onRelatedDelete,
-		})
-
-		if err != nil {
-			return nil, nil, fmt.Errorf("can't create informer for related resource: %w", err)
-		}
-
+	// Wait outside the lock: the informer may have been registered by another
+	// goroutine that is itself still waiting for the initial list.
+	if !informer.Informer().HasSynced() {
 		if !clientgo_cache.WaitForNamedCacheSync(rm.name, rm.stopCh, informer.Informer().HasSynced) {
 			rm.logger.Info("related Manager - cache sync never finished", "name", rm.name)
 		}
-
-		groupVersion, _ := schema.ParseGroupVersion(apiVersion)
-		rm.relatedInformers.Set(groupVersion.WithResource(resource), informer)
 	}
 
 	return client, informer, nil
+}
+
+func (rm *Manager) getOrCreateRelatedInformer(apiVersion, resource string, gvr schema.GroupVersionResource) (*dynamicinformer.ResourceInformer, error) {
+	rm.relatedInformersLock.Lock()
+	defer rm.relatedInformersLock.Unlock()
+
+	informer := rm.relatedInformers.Get(gvr)
+	if informer != nil {
+		return informer, nil
+	}
+	informer, err := rm.dynInformers.Resource(apiVersion, resource)
+
+	if err != nil {
+		return nil, fmt.Errorf("can't create informer for related resource: %w", err)
+	}
+
+	_, err = informer.Informer().AddEventHandler(clientgo_cache.ResourceEventHandlerFuncs{
+		AddFunc:    rm.onRelatedAdd,
+		UpdateFunc: rm.onRelatedUpdate,
+		DeleteFunc: rm.onRelatedDelete,
+	})
+
+	if err != nil {
+		return nil, fmt.Errorf("can't create informer for related resource: %w", err)
+	}
+
+	rm.relatedInformers.Set(gvr, informer)
+	return informer, nil
 }
 
 func (rm *Manager) onRelatedAdd(obj interface{}) {
